@@ -556,6 +556,45 @@ func c16RunDCMI(run *ev.Run, d c16DCMI) {
 		}
 		last[rq.Entity] = int(rq.Start)
 	}
+	// a second enumeration over the same session after the BMC has recovered (its standard entity
+	// IDs now answer, with other record IDs): what the first one had to do says nothing about this one
+	if d.Mode != "standard" && d.Mode != "overclaim" && (d.Counts[0]+d.PageSize)%2 == 0 {
+		srv.ErrFor, srv.ErrFrom, srv.Overclaim = map[byte]byte{}, nil, 0
+		std2 := [3][]uint16{mkIDs(d.Counts[1]), mkIDs(d.Counts[2]), mkIDs(d.Counts[0])}
+		for i := 0; i < 3; i++ {
+			srv.IDs[[2]byte{1, std[i]}] = std2[i]
+		}
+		want2 := std2
+		if d.Counts[0]+d.Counts[1]+d.Counts[2] == 0 {
+			want2 = dcIDs
+		}
+		srv.Requests = nil
+		l2, c2 := e.LimitCtx(3*2*260 + 10)
+		var info2 *dcmi.SensorInfo
+		var err2 error
+		pv2, st2 := safe(func() { info2, err2 = dcmi.GetSensorInfo(l2, sess) })
+		c2()
+		if pv2 != nil {
+			run.Violation("C16:dcmi:panic:"+panicSite(st2), fmt.Sprintf("%s, second enumeration: %v\n%s", desc, pv2, trimStack(st2)), cs, nil)
+			return
+		}
+		run.Nontrivial(fmt.Sprintf("dcmi-again|%v|%d|%s", d.Counts, d.PageSize, d.Mode))
+		if err2 != nil || info2 == nil {
+			run.Violation("C16:dcmi:second-enumeration", fmt.Sprintf("%s: a second enumeration on the same session, against the recovered BMC, failed: %v", desc, err2), cs, nil)
+			return
+		}
+		got2 := [3][]ipmi.RecordID{info2.Inlet, info2.CPU, info2.Baseboard}
+		for i := 0; i < 3; i++ {
+			same := len(got2[i]) == len(want2[i])
+			for k := 0; same && k < len(want2[i]); k++ {
+				same = uint16(got2[i][k]) == want2[i][k]
+			}
+			if !same {
+				run.Violation("C16:dcmi:second-enumeration", fmt.Sprintf("%s: a second enumeration on the same session, against the recovered BMC, returned %d record IDs for entity %d, expected the %d of the standard entity ID (requests: %d)", desc, len(got2[i]), i, len(want2[i]), len(srv.Requests)), cs, nil)
+				return
+			}
+		}
+	}
 	if d.Counts[0] == 9 {
 		run.Sample("dcmi-"+d.Mode, map[string]any{"counts": d.Counts, "page_size": d.PageSize, "mode": d.Mode, "requests": len(srv.Requests), "inlet_ids": len(info.Inlet)})
 	}
